@@ -27,9 +27,27 @@ NA = {
  "C18": "sortedness/permutation and ADT conformance of Scheme container libraries are functional correctness over histories; nothing structural to anchor",
  "C20": "agreement of a Scheme NFA simulation with SRE semantics is language equivalence; out of reach of source-shape rules",
 }
+CLAIMED["C10"] = ("(a) every allocation site's size expression (linear form over constant-evaluated sizes) equals the extent "
+    "the sweeper recomputes from the type row and the stored length field; type rows agree with the record layout; "
+    "(b) size-determining length fields are written only on an object allocated earlier in the same function. "
+    "Decides the 'exact tiling' precondition (allocator and sweeper agree on every object's extent), not the sweep/coalescing "
+    "arithmetic or heap-growth bounds.",
+    "table/layout/site agreement (constant-evaluated type table vs ASTRecordLayout vs linear forms of allocation sizes); who-may-write with dominance",
+    "3 C10")
+CLAIMED["C16"] = ("(a) typestate over sexp_gc / sexp_destroy_context: mark*, weak reset, finalize, sweep in that order on every path; "
+    "(b) Ephemeron type row: key is the single weak slot, value the one extra slot, neither strongly traced, and a weak-column reader can reach the marker; "
+    "(c) every close/fclose of a fileno's descriptor or port stream in any unit (incl. generated stubs) is dominated by the owner's openp test and the store openp=0; one refcount decrement site. "
+    "Necessary conditions of 'exactly once / only when unreachable'; reachability timing itself is not decided.",
+    "typestate over the CFG (phase automaton), table/layout agreement, dominance (guard + flag store dominate release), call-graph reachability",
+    "3 C16")
+
 # properties planned in DESIGN.md but whose checks are not built yet are listed
 # as not applicable *for now* with that reason, so the manifest never over-claims
 PENDING = {}
+for _l in open(os.path.join(os.path.dirname(os.path.abspath(__file__)), "properties.jsonl")):
+    _p = json.loads(_l)["id"]
+    if _p not in CLAIMED and _p not in NA:
+        PENDING[_p] = "not claimed yet: the static clauses planned for it in DESIGN.md section 3 are not built/armed at this commit"
 
 def main():
     fixes = subprocess.run(["git", "-C", "/repo", "log", "--format=%h %s", "7028faf..HEAD"],
